@@ -152,6 +152,33 @@ def parseOrders (s : Bytes) : List (Bytes × List Bytes) :=
       | _ => none
   | _ => []
 
+/-- a key name with every operation id in it (a run of 16 or more digits) blanked -/
+def blankIds (k : Bytes) : Bytes :=
+  let rec go (rest : Bytes) (run : Bytes) (acc : Bytes) (fuel : Nat) : Bytes :=
+    match fuel, rest with
+    | 0, _ => acc
+    | _, [] => acc ++ (if run.length ≥ 16 then [35] else run)
+    | f + 1, x :: xs =>
+      if 48 ≤ x && x ≤ 57 then go xs (run ++ [x]) acc f
+      else go xs [] (acc ++ (if run.length ≥ 16 then [35] else run) ++ [x]) f
+  go k [] [] (k.length + 1)
+
+/-- the implementation names keys that embed operation ids (`$conflicts_<key>_<op id>`) with ITS ids; the model's keys carry the
+model's ids.  Both count upwards in creation order, so the j-th smallest key of a shape on one side is the j-th smallest on the other. -/
+def resolveOrder (modelKeys : List Bytes) (order : List Bytes) : List Bytes :=
+  order.map fun x =>
+    if modelKeys.contains x then x else
+    let g := blankIds x
+    let rank := (order.filter fun y => blankIds y == g && Bytes.lt y x).length
+    let cands := Bytes.sort (modelKeys.filter fun y => blankIds y == g)
+    (cands[rank]?).getD x
+
+def ordersOf (n : Node) (a : Bytes) : List (Bytes × List Bytes) :=
+  (parseOrders a).map fun (d, ks) =>
+    match n.db? d with
+    | some db => (d, resolveOrder (db.map.map (·.1)) ks)
+    | none => (d, ks)
+
 structure World where
   node : Node
   /-- conflict notices received per session (for `RESOLVE`) -/
@@ -390,7 +417,7 @@ def step (w : World) (line : String) : World × List String :=
     | none => (w, ["E bad-op"])
   | "SNAP" =>
     if w.s3mode then
-      let orders := parseOrders a1
+      let orders := ordersOf w.node a1
       let q := (dedupConsecutive w.node.toSnapshot).reverse
       let w := q.foldl (fun (w : World) (name, reclaim) =>
         match w.node.db? name with
@@ -406,13 +433,13 @@ def step (w : World) (line : String) : World × List String :=
     let w := if w.xtrace then { w with xlog := w.xlog ++ sx } else w
     let sxl := if w.xtrace then sx.map (xopStr ·.1) else []
     let w := if w.pump && !w.node.toSnapshot.isEmpty then { w with mstate := w.mstate.snapshotKeys } else w
-    let n := w.node.snapshotAll (parseOrders a1)
+    let n := w.node.snapshotAll (ordersOf w.node a1)
     -- cross-check of the two formulations of the writer (final files vs. operation trace)
     let chk : List String := match (dedupConsecutive w.node.toSnapshot).reverse with
       | [(name, reclaim)] =>
         match w.node.db? name with
         | some db =>
-          let viaOps := w.node.fs.applyOps (snapshotOps db w.node.fs reclaim ((AL.get? (parseOrders a1) name).getD []))
+          let viaOps := w.node.fs.applyOps (snapshotOps db w.node.fs reclaim ((AL.get? (ordersOf w.node a1) name).getD []))
           if dumpFs viaOps == dumpFs n.fs then [] else ["E trace-mismatch"]
         | none => []
       | _ => []
@@ -531,7 +558,7 @@ def step (w : World) (line : String) : World × List String :=
     | (name, reclaim) :: _ =>
       match w.node.db? name with
       | some db =>
-        let ops := snapshotOps db w.node.fs reclaim ((AL.get? (parseOrders a1) name).getD [])
+        let ops := snapshotOps db w.node.fs reclaim ((AL.get? (ordersOf w.node a1) name).getD [])
         (w, ops.map opStr)
       | none => (w, ["E no-db"])
     | [] => (w, ["E empty-queue"])
@@ -542,7 +569,7 @@ def step (w : World) (line : String) : World × List String :=
     | some n, (name, reclaim) :: _ =>
       match w.node.db? name with
       | some db =>
-        let ops := snapshotOps db w.node.fs reclaim ((AL.get? (parseOrders (p[0]?.getD [])) name).getD [])
+        let ops := snapshotOps db w.node.fs reclaim ((AL.get? (ordersOf w.node (p[0]?.getD [])) name).getD [])
         let fs' := w.node.fs.applyOps (ops.take n)
         match ({ w.node with fs := fs' } : Node).restart (freshNodeAt w.node.role w.node.clock) with
         | some n' => (w, s!"# crash-prefix {n}" :: dumpNode n')
